@@ -3,6 +3,7 @@ import F3.Props.C08
 import F3.Proofs.BridgeEx
 import F3.Proofs.ParticipantBridge
 import F3.Proofs.RestartEx
+import F3.Proofs.MultiParticipantNet
 /-!
 # C01 — Agreement
 
@@ -371,5 +372,114 @@ example (sig : Req → Nat) (hsig : ∀ r ph x y, sig (r, ph, x) = sig (r, ph, y
   r_wire_is_c12 sig hsig
 
 end Restarts
+/-! ## Agreement in each of several consecutive instances, at the participant API across instances
+
+`mprun (minit cfg c0) ops` (`F3.Model.MultiParticipant`: `gpbft.Participant` with its instance counter, the running
+instance, one message queue per future instance and the decisions handed to the host) is what one participant does
+over its whole life; the correspondence driver replays it against the real participant in the multi-instance
+network runs. `consecutive_instances_projection` shows that what it does for instance `k` is a single-instance
+participant run (`prun`) over the calls that concern `k`, so every statement about `prun` — `agreement_model_participant`
+above, C02, C03, C07 — holds of every instance of a multi-instance run. -/
+section ConsecutiveInstances
+open F3.Instance F3.Bridge
+
+/-- **Per-instance projection of a multi-instance participant run.** Take any sequence `ops` of `ReceiveMessage` /
+`ReceiveAlarm` / `StartInstanceAt` calls of a fresh participant (initial instance `c0`) in which every
+`StartInstanceAt j` skips ahead (`forwardOnly`: `cur < j`, or `j = cur` while no instance is running — it never goes
+backwards and never restarts the running instance), and any instance `k` that was begun in it: an alarm found no
+running instance with `cur = k`, the host supplying power table `tbl`, proposal `input`, and the queue being
+drained in sender order `order` (`begunWith cfg c0 k ops = some (tbl, input, order)`). Let `opsOf cfg c0 k ops` be
+the calls that concern `k`, in order: the deliveries `recv _ ⟨k, m⟩` made while `cur ≤ k` (queued while `k` is a future
+instance or current but not begun, delivered to the running instance afterwards) and the alarms received while `k` was
+current. Then
+* the effects tagged `k` are exactly the effects of `prun order (pinit cfg tbl input) (opsOf cfg c0 k ops)`;
+* a decision `d` is recorded for `k` iff that single-instance run ends with `termination = some d`;
+* while `k` is current, the running instance is the final state of that single-instance run;
+* `k ≤ cur`. -/
+theorem consecutive_instances_projection (cfg : Cfg) (c0 : Nat) (ops : List MPOp) (k : Nat) (tbl : Table)
+    (input : Chain) (order : List Pid) (hfw : forwardOnly (minit cfg c0) ops = true)
+    (hbeg : begunWith cfg c0 k ops = some (tbl, input, order)) :
+    effsOf k (mprun (minit cfg c0) ops).2 = (prun order (pinit cfg tbl input) (opsOf cfg c0 k ops)).2 ∧
+    (∀ d, (k, d) ∈ (mprun (minit cfg c0) ops).1.decisions ↔
+      (prun order (pinit cfg tbl input) (opsOf cfg c0 k ops)).1.inst.termination = some d) ∧
+    ((mprun (minit cfg c0) ops).1.cur = k →
+      (mprun (minit cfg c0) ops).1.active = some (prun order (pinit cfg tbl input) (opsOf cfg c0 k ops)).1) ∧
+    k ≤ (mprun (minit cfg c0) ops).1.cur :=
+  instance_projection cfg c0 ops k tbl input order hfw hbeg
+
+/-- An instance that was not begun (a future one, or one skipped by `StartInstanceAt`) has no effects and no
+decision; so every recorded decision is the decision of the single-instance run of a begun instance. -/
+theorem consecutive_instances_not_begun (cfg : Cfg) (c0 : Nat) (ops : List MPOp) (k : Nat)
+    (hfw : forwardOnly (minit cfg c0) ops = true) (hbeg : begunWith cfg c0 k ops = none) :
+    effsOf k (mprun (minit cfg c0) ops).2 = [] ∧ ∀ d, (k, d) ∉ (mprun (minit cfg c0) ops).1.decisions :=
+  instance_not_begun cfg c0 ops k hfw hbeg
+
+/-- **Agreement in every one of several consecutive instances, end to end for the model of the code.** Every
+participant `p` executes one multi-instance run `runs p` (`MultiRun`: any calls, `StartInstanceAt` only skipping
+ahead). For each instance `k < K`, `N.inst k` (`InstanceNetwork`) says: committee `t k` with distinct ids and positive
+total; Byzantine members `F k` below a third of its power; `W k` the validly signed votes of instance `k` in
+existence; for every honest member `p` of `t k`: its votes in `W k` are exactly the broadcasts its participant made
+while `k` was current, and if its participant began `k` then the host supplied the table `t k` and a non-empty
+proposal, every delivery that concerns `k` (`opsOf`) is valid (`MsgValid`, or of foreign instance / supplemental data
+and refused), and no call that concerns `k` reported an error other than a refusal at the door (`okRunP`) — the
+hypotheses of `agreement_model_participant`, stated about the multi-instance runs. Then the decisions recorded
+**for the same instance `k`** by any two honest participants are for the same value. -/
+theorem agreement_consecutive_instances {K : Nat} {runs : Pid → MultiRun} {t : Nat → Table} {F : Nat → Finset Pid}
+    {W : Nat → Instance.Votes} (N : MultiNetwork K runs t F W) (k : Nat) (hk : k < K)
+    (p q : Pid) (hp : p ∈ (ids (t k)).toFinset) (hpF : p ∉ F k) (hq : q ∈ (ids (t k)).toFinset) (hqF : q ∉ F k)
+    (dp dq : Just)
+    (hdp : (k, dp) ∈ (mprun (minit (runs p).cfg (runs p).c0) (runs p).ops).1.decisions)
+    (hdq : (k, dq) ∈ (mprun (minit (runs q).cfg (runs q).c0) (runs q).ops).1.decisions) :
+    dp.value = dq.value :=
+  agreement_instance (N.inst k hk) p q hp hpF hq hqF dp dq hdp hdq
+
+/-- each instance of a `MultiNetwork` satisfies the honest rules of Layer A -/
+theorem consecutive_instances_satisfy_rules {K : Nat} {runs : Pid → MultiRun} {t : Nat → Table}
+    {F : Nat → Finset Pid} {W : Nat → Instance.Votes} (N : MultiNetwork K runs t F W) (k : Nat) (hk : k < K) :
+    (world (t k) (F k) (W k)).Rules :=
+  (N.inst k hk).toNetworkP.rules
+
+/-- Non-vacuity of `consecutive_instances_projection`: the two-instance execution `exMOps` (four equal members;
+instance 0 decides `[7,8]`; a message for instance 1 arrives while instance 0 is running and is queued; a message for
+instance 0 arrives after it finished and is dropped; instance 1 begins, drains its queue of three messages, decides
+`[8,5]`): the hypotheses hold for both instances, the calls that concern each are as expected, and the conclusions
+are confirmed by evaluation. -/
+theorem consecutive_instances_projection_nonvacuous :
+    forwardOnly (minit mxCfg) exMOps = true ∧
+    begunWith mxCfg 0 0 exMOps = some (mxTbl, [7, 8], mxOrder) ∧
+    begunWith mxCfg 0 1 exMOps = some (mxTbl, [8, 5], [1, 4, 2]) ∧ begunWith mxCfg 0 2 exMOps = none ∧
+    opsOf mxCfg 0 0 exMOps = exPOps0 ∧ opsOf mxCfg 0 1 exMOps = exPOps1 ∧
+    (queueOf (mprun (minit mxCfg) (exMOps.take 7)).1.queues 1).length = 1 ∧
+    (mprun (minit mxCfg) (exMOps.take 18)).2 = (mprun (minit mxCfg) (exMOps.take 17)).2 ∧
+    (queueOf (mprun (minit mxCfg) (exMOps.take 20)).1.queues 1).map (·.sender) = [2, 1, 4] ∧
+    effsOf 1 (mprun (minit mxCfg) exMOps).2 = (prun [1, 4, 2] (pinit mxCfg mxTbl [8, 5]) (opsOf mxCfg 0 1 exMOps)).2 ∧
+    (mprun (minit mxCfg) exMOps).1.decisions =
+      [(0, { round := 0, phase := .decide, value := [7,8], signers := [0,1,2] }),
+       (1, { round := 0, phase := .decide, value := [8,5], signers := [0,1,2] })] :=
+  ⟨ex_forward.2.2, ex_opsOf.2.2.1, ex_opsOf.2.2.2.1, ex_opsOf.2.2.2.2, ex_opsOf.1, ex_opsOf.2.1, by decide +kernel,
+   ex_two_instances.2.2.2.2.2.2.2.2.2.1, ex_two_instances.2.2.2.2.2.2.2.2.2.2.1, ex_projection.2.1,
+   ex_two_instances.2.2.2.2.2.2.2.2.2.2.2.2.2.2.2⟩
+
+/-- Non-vacuity of `agreement_consecutive_instances`: the four-member network over two consecutive instances, the
+three honest members each executing `exMOps`, member 4 Byzantine and equivocating in PREPARE in both instances; every
+honest participant records a decision for instance 0 and one for instance 1 (`R.final` abbreviates
+`(mprun (minit R.cfg R.c0) R.ops).1`). -/
+theorem agreement_consecutive_instances_nonvacuous :
+    MultiNetwork 2 (fun _ => exMultiRun) (fun _ => exTbl) (fun _ => exF)
+      (fun k => if k = 0 then exW else Wof exVotes1) ∧
+    exW 4 0 .prepare [7, 9] ∧ exW 4 0 .prepare [7, 8] ∧
+    Wof exVotes1 4 0 .prepare [8, 6] ∧ Wof exVotes1 4 0 .prepare [8, 5] ∧
+    (∃ d, (0, d) ∈ exMultiRun.final.decisions ∧ d.value = [7, 8]) ∧
+    (∃ d, (1, d) ∈ exMultiRun.final.decisions ∧ d.value = [8, 5]) := by
+  refine ⟨exMultiNet, by show _ ∈ exVotes; decide, by show _ ∈ exVotes; decide, by show _ ∈ exVotes1; decide,
+    by show _ ∈ exVotes1; decide, ?_, ?_⟩
+  · refine ⟨{ round := 0, phase := .decide, value := [7,8], signers := [0,1,2] }, ?_, rfl⟩
+    rw [ex_recorded]
+    decide
+  · refine ⟨{ round := 0, phase := .decide, value := [8,5], signers := [0,1,2] }, ?_, rfl⟩
+    rw [ex_recorded]
+    decide
+
+end ConsecutiveInstances
 
 end F3.Props.C01
